@@ -189,6 +189,16 @@ class C11(Prop):
                     if got != ref["ll"]:
                         ctx.fail("C11.operands_unchanged", what="L(g & (a|b|c)*) after the intersection differs from L(g)",
                                  missing=sorted(ref["ll"] - got)[:3], extra=sorted(got - ref["ll"])[:3])
+        if case[0] == "cfg" and not want:
+            # an empty intersection intersected again (the library hands out CFG(), a grammar without start symbol,
+            # for some empty results): (g & r) & r' must be an empty grammar too
+            first = ctx.call(left.intersection, right)
+            if first.ok:
+                again = ctx.call(first.value.intersection, Regex("(a|b|c)*"))
+                if ctx.returns(again, "C11.cfg.intersection", what="(g & r) & (a|b|c)* on an empty g & r"):
+                    e = ctx.call(again.value.is_empty)
+                    ctx.expect(e.ok and e.value is True, "C11.cfg.lang", what="(g & r) & (a|b|c)* on an empty g & r",
+                               got=e.describe())
         snap_l2 = (O.extract_cfg(left).prods if case[0] == "cfg" else O.extract_pda(left).trans)
         ok = snap_l == snap_l2 and (snap_r is None or snap_r == O.extract_fa(right).trans)
         ctx.expect(ok, "C11.operands_unchanged")
